@@ -34,9 +34,9 @@ let fmt_qres r =
 let fmt_zres r =
   match r with
   | ZOk q -> fmt_qres q
-  | ZErr UnexpectedEof -> "Err:UnexpectedEof"
-  | ZErr InvalidData -> "Err:InvalidData"
-  | ZErr InvalidInput -> "Err:InvalidInput"
+  | ZErr UnexpectedEof0 -> "Err:UnexpectedEof"
+  | ZErr InvalidData0 -> "Err:InvalidData"
+  | ZErr InvalidInput0 -> "Err:InvalidInput"
   | ZPanic -> "Panic"
   | ZNoFuel -> "NoFuel"
   | ZUnmodelled -> "?"
@@ -70,6 +70,42 @@ let parse_script s =
   if s = "_" then [] else
   List.map (fun t -> if t = "i" then Interrupted else Deliver (nat_of_int (int_of_string t))) (split_on ',' s)
 
+let parse_frames s =
+  if s = "_" then [] else
+  List.map (fun p -> match split_on ':' p with
+    | [c; d] -> { csize = n_of_dec c; fdata = bytes_of_hex d }
+    | _ -> failwith "frame") (split_on ',' s)
+
+let fmt_frames fs =
+  if fs = [] then "_" else
+  String.concat "," (List.map (fun b -> dec_of_n b.csize ^ ":" ^ hex_of_bytes b.fdata) fs)
+
+let parse_gzi s =
+  if s = "_" then [] else
+  List.map (fun p -> match split_on ':' p with
+    | [c; u] -> (n_of_dec c, n_of_dec u) | _ -> failwith "gzi") (split_on ',' s)
+
+let parse_prior s =
+  if s = "_" then [] else
+  List.map (fun p ->
+    let t = String.sub p 1 (String.length p - 1) in
+    match p.[0] with
+    | 'u' -> SeekU (n_of_dec t)
+    | 'r' -> Read (n_of_dec t)
+    | 'f' -> FillBuf
+    | 'c' -> Consume (n_of_dec t)
+    | _ -> failwith "prior") (split_on ',' s)
+
+let fmt_vp r =
+  match r with
+  | Ok0 v -> dec_of_n v
+  | Err0 _ -> "Err"
+  | Panic0 -> "Panic"
+  | OutOfFuel0 -> "NoFuel"
+  | Unmodelled -> "?"
+
+let fmt_zv (z, v) = fmt_zres z ^ "@" ^ fmt_vp v
+
 let handle kind a =
   match kind with
   | "idx" | "idxw" -> Some (fmt_index (index_file (bytes_of_hex a.(0))))
@@ -89,7 +125,7 @@ let handle kind a =
         match index_and_query_delivered cap f sc name s e with
         | (SOk, r) -> fmt_qres r
         | (SNoFuel, _) -> "NoFuel") (parse_regions a.(3))))
-  | "wr" ->
+  | "wr" | "wre" ->
       let w = nat_of_int (int_of_string a.(0)) in
       let recs = if a.(1) = "_" then [] else split_on ';' a.(1) in
       let recs = List.map (fun r -> match split_on ':' r with
@@ -144,6 +180,19 @@ let handle kind a =
         | (SOk, r) -> fmt_qres r
         | (SNoFuel, _) -> "NoFuel") (parse_regions a.(3))))
   | "fqg" -> Some (if fq_accepts (bytes_of_hex a.(0)) then "1" else "0")
+  | "fqi" -> Some (if fqi_accepts (bytes_of_hex a.(0)) then "1" else "0")
+  | "qy" ->
+      let frames = parse_frames a.(0) in
+      Some (fmt_index (index_bgzf frames) ^ "|"
+            ^ String.concat "," (List.map fmt_zv
+                (index_and_query_bgzf_any frames (parse_gzi a.(1)) (parse_prior a.(3)) (parse_regions a.(4)))))
+  | "qyb" ->
+      let src = { s_data = bytes_of_hex a.(0); s_script = parse_script a.(4) } in
+      let cap = nat_of_int (int_of_string a.(3)) in
+      (match index_and_query_bgzf_file cap src (parse_gzi a.(1)) (parse_prior a.(5)) (parse_regions a.(6)) with
+       | None -> Some "NotBgzf"
+       | Some ((frames, ix), rs) ->
+           Some (fmt_frames frames ^ "|" ^ fmt_index ix ^ "|" ^ String.concat "," (List.map fmt_zv rs)))
   | _ -> None
 
 let () = run_driver handle
